@@ -131,12 +131,23 @@ def has_safe_repr(value: t.Any) -> bool:
         return True
 
     if type(value) in {tuple, list, set, frozenset}:
-        return all(has_safe_repr(v) for v in value)
+        return all(_has_safe_nested_repr(v) for v in value)
 
     if type(value) is dict:  # noqa E721
-        return all(has_safe_repr(k) and has_safe_repr(v) for k, v in value.items())
+        return all(
+            _has_safe_nested_repr(k) and _has_safe_nested_repr(v)
+            for k, v in value.items()
+        )
 
     return False
+
+
+def _has_safe_nested_repr(value: t.Any) -> bool:
+    # The repr of a container spells inf and nan as bare names.
+    if type(value) in {float, complex} and value - value != 0:
+        return False
+
+    return has_safe_repr(value)
 
 
 def find_undeclared(nodes: t.Iterable[nodes.Node], names: t.Iterable[str]) -> set[str]:
